@@ -1026,7 +1026,8 @@ class AuthOnlyHandler(AuthHandler):
         m.add_string("ssh-connection")
         m.add_string(method)
         # Caller usually has more to say, such as injecting password, key etc
-        finish_message(m)
+        if finish_message is not None:
+            finish_message(m)
         # TODO 4.0: seems odd to have the client handle the lock and not
         # Transport; that _may_ have been an artifact of allowing user
         # threading event injection? Regardless, we don't want to move _this_
